@@ -66,7 +66,7 @@ mxArray* mxCreateDoubleScalar(double value) {
 }
 mxArray* mxCreateString(const char* str) {
   size_t len = strlen(str);
-  mxArray* a = newArray(mxCHAR_CLASS, 1, len);
+  mxArray* a = newArray(mxCHAR_CLASS, len == 0 ? 0 : 1, len);   // the empty string is MATLAB's '' : a 0-by-0 char array
   mxChar* d = static_cast<mxChar*>(a->data);
   for (size_t i = 0; i < len; i++) d[i] = static_cast<mxChar>(static_cast<unsigned char>(str[i]));
   return a;
